@@ -803,6 +803,23 @@ mod tests {
     }
 
     #[test]
+    fn test_field_names_with_quotes_or_line_breaks() {
+        let schema = json!({
+            "title": "Config",
+            "type": "object",
+            "properties": {
+                "say \"hi\"": { "type": "string" },
+                "two\nlines": { "type": "integer" }
+            },
+            "required": ["say \"hi\"", "two\nlines"]
+        });
+
+        let output = converter().convert(&schema).annotation_text;
+        assert!(output.contains("---@field ['say \"hi\"'] string\n"));
+        assert!(output.contains("---@field [string] integer\n"));
+    }
+
+    #[test]
     fn test_description_above_field() {
         let schema = json!({
             "title": "Config",
